@@ -210,6 +210,14 @@ def vc_node_in_prev_ne(prog, state_kind='edge'):
             # lattice invariant (C09, proved for next/first/update/upsert): same observation -> exactly one layer lower
             return p, [p.f['obs_ne'] >= 0, z3.Implies(p.f['obs'] == me.f['obs'], p.f['obs_ne'] == me.f['obs_ne'] - 1)]
         me.f['prev'] = SymColl('prev', pred, ordered=False)
+
+        def other(it_):
+            # a predecessor that lost against the best one at some time: any entry at all
+            o = K.mk_matching(f"other{len(st.setdefault('others', []))}", matcher, 'BaseMatching',
+                              edge_m=K.mk_segment('o_em', False, state_kind == 'edge'), edge_o=K.mk_segment('o_eo', True))
+            st['others'].append(o)
+            return o, [o.f['obs_ne'] >= 0]
+        me.f['prev_other'] = SymColl('prev_other', other, ordered=False)
         st.update(me=me, calls=[], matcher=matcher)
         return [matcher, me, z3.Const('label', Label)], {}
 
@@ -223,6 +231,9 @@ def vc_node_in_prev_ne(prog, state_kind='edge'):
     def goals(ctx, res):
         me = st['me']
         g = [('visited:at-most-one-recursive-call-per-predecessor', b2z(len(st['calls']) <= 1))]
+        walked = [e.elem for e in ctx.events if e.kind == 'iter-begin']
+        g.append(('visited:only-the-best-predecessors-are-walked(the answer cannot depend on the hash order of a larger set)',
+                  b2z(all(any(w is p for p in st.get('preds', [])) for w in walked))))
         for c in st['calls']:
             isp = isinstance(c, Obj) and any(c is p for p in st.get('preds', []))
             g.append(('visited:recursion-only-into-a-predecessor', b2z(isp)))
